@@ -18,7 +18,13 @@ func zzCipher(kind int) (cipherfs.Cipher, int) {
 	if kind == 0 {
 		return aesgcm256cfs.NewCipher(), 0
 	}
-	return extcfs.NewDefaultCipher(), 4
+	if kind == 1 {
+		return extcfs.NewDefaultCipher(), 4
+	}
+	// the tagged cipher configured with a tag of the caller's own
+	c, err := extcfs.NewCipher(extcfs.CipherKey(7), extcfs.CipherMap{extcfs.CipherKey(7): aesgcm256cfs.NewCipher()})
+	nd.Assume(err == nil)
+	return c, 4
 }
 
 func zzEnc(base filesystem.Filespace, secret, salt []byte, hostOnly bool, c cipherfs.Cipher) filesystem.Filespace {
@@ -98,7 +104,7 @@ func zzRead(fs filesystem.Filespace, path string, stream bool) ([]byte, bool) {
 // tag‖nonce‖box; two writes of the same data can give different stored bytes.
 func ZZVerifC05Roundtrip() {
 	base, _ := memfs.NewFilespace()
-	c, tagLen := zzCipher(nd.Choose("cipher", 2))
+	c, tagLen := zzCipher(nd.Choose("cipher", 3))
 	secret := nd.BytesUpTo("secret", 1)
 	salt := nd.BytesUpTo("salt", 1)
 	if nd.Bool("long-secret") {
@@ -307,7 +313,7 @@ func ZZVerifC05NamesTwin() {
 // settings reads the second one, a child view of it reads and writes too.
 func ZZVerifC05Reuse() {
 	base, _ := memfs.NewFilespace()
-	c, _ := zzCipher(nd.Choose("cipher", 2))
+	c, _ := zzCipher(nd.Choose("cipher", 3))
 	secret := []byte("k")
 	switch nd.Choose("secret-length", 3) {
 	case 1:
